@@ -206,6 +206,8 @@ structure LogAcc where
   afterSeen : Nat := 0
   /-- an after-hook log was delivered before the After-hook Started event (finding F-C20c) -/
   early : Bool := false
+  /-- the attempt's Finished event was seen: nothing of this attempt may follow -/
+  fin : Bool := false
 
 /-- walk the events of ONE attempt: logs of step `i` must lie between `step i started` and its result
     (hooks likewise), numbered 0..n-1 in order, exactly once -/
@@ -221,7 +223,10 @@ def attemptLogs (scen : Nat) (plan : List (Nat × Nat × Nat)) (marked : List (N
     match acc.err with
     | some _ => acc
     | none =>
+      -- C02 on traced runs: no event of an attempt after its Finished (a log broadcast to a stale attempt would be one)
+      if acc.fin then { acc with err := some s!"an event of an attempt of scenario {scen} was delivered after its Finished" } else
       match e with
+      | .finished => { acc with fin := true }
       | .step i .started => { acc with cur := some i, nxt := 0 }
       | .hook .before .started => { acc with cur := some 98, nxt := 0 }
       | .hook .after .started => { acc with cur := some 99, nxt := acc.afterSeen }
@@ -229,6 +234,10 @@ def attemptLogs (scen : Nat) (plan : List (Nat × Nat × Nat)) (marked : List (N
       | .hook .before _ => close acc 98
       | .hook .after _ => close acc 99
       | .log m =>
+        -- a log emitted OUTSIDE every scenario span (scenario number 8000 in the harness' numbering): the collector
+        -- cannot attribute it and hands it to every scenario that is active; it is not counted, it only has to lie
+        -- inside the attempt's bracket (checked by `fin` above)
+        if msgScen m == 8000 then acc else
         -- the After hook RUNS before its Started event is emitted (run_after_hook / emit_after_hook_events):
         -- its logs arrive early; they must still be this scenario's, complete and in order (F-C20c)
         if msgStep m == 99 && acc.cur != some 99 then
@@ -256,5 +265,23 @@ def monC20 (plan : List (Nat × Nat × Nat)) (marked : List (Nat × Nat)) (evs :
     else
       let ids := (if accs.any (·.known) then ["F-C20b"] else []) ++ (if accs.any (·.early) then ["F-C20c"] else [])
       if ids.isEmpty then "ok" else "!monitor " ++ " ".intercalate ids
+
+/-- C02 / C03 on traced runs (Log events are scenario events too): no event of an attempt after its Finished, and no
+    scenario event of a feature after that feature's Finished -/
+def monTraced (evs : List Ev) : String :=
+  let attBad := (attKeys evs).find? (fun (κ : ScenKey × Option Retries) =>
+    let mine := projAtt κ evs
+    match mine.findIdx? (fun e => match e with | .scen _ _ .finished => true | _ => false) with
+    | some i => decide (i + 1 < mine.length)
+    | none => false)
+  match attBad with
+  | some κ => s!"!monitor NEW c02: an event of an attempt of scenario {κ.1.scen} was delivered after its Finished"
+  | none =>
+    let featBad := evs.zipIdx.find? (fun (p : Ev × Nat) => match p.1 with
+      | Ev.featFinished f => (evs.drop (p.2 + 1)).any (fun e => match e with | .scen k _ _ => k.feat == f | _ => false)
+      | _ => false)
+    match featBad with
+    | some p => s!"!monitor NEW c03: a scenario event follows the Finished of its feature (at {p.2})"
+    | none => "ok"
 
 end Cuke.Mon
